@@ -41,6 +41,7 @@ static void run_script(const std::vector<std::string> &lines) {
             o << "== " << lineno << " " << t.substr(b, e - b + 1) << " -> Unresolvable\n";
         }
         dump_state(w, o);
+        if (!r.extra.empty()) o << r.extra << "\n";
         if (any && !unres && !r.rejected) {
             mark_new_vertices(w, a.nv);
             Snap b = take_snap(w);
@@ -53,6 +54,7 @@ static void run_script(const std::vector<std::string> &lines) {
             if (on("C01")) oracle_C01(w, b, out);
             if (on("C02") && is_del) oracle_C02(a, b, op[3], std::stoi(echo[1]), out);
             if (on("C03") && op != "PSet" && op != "PCreate" && op != "PDrop" && op != "Clear") oracle_C03(a, b, out, is_set);
+            if (on("C04") && op == "StatusGC") oracle_C04_status(a, b, echo, r.extra, out);
             if (on("C04") && (op == "GC" || (op == "EnDef" && echo[1] == "0"))) { oracle_C04(a, b, out); OracleOut o3{o}; oracle_C03(a, b, o3, false); if (o3.fails) out.fail("C04", "property values did not survive garbage collection on their entities"); }
             if (on("C17") && is_swap) oracle_C17(a, b, op[4], std::stoi(echo[1]), std::stoi(echo[2]), out);
             if (on("C11") && (op == "AddE" || op == "AddF" || op == "AddC")) oracle_C11(a, b, echo, r.has, r.r, out);
